@@ -234,7 +234,7 @@ func decodeResult(name string, in []byte) ([]uint64, string, error) {
 // baselineFor: a sequence of connections may cost the valid minimal exchange once per connection
 func baselineFor(dec string, in []byte) uint64 {
 	b := baseline(dec)
-	if strings.HasPrefix(dec, "hq:") {
+	if strings.HasPrefix(dec, "hq:") || strings.HasPrefix(dec, "hg:") {
 		n := 1
 		for i := 0; i+2 <= len(in); n++ {
 			i += 2 + (int(in[i])<<8 | int(in[i+1]))
